@@ -101,3 +101,21 @@ Theorem C08_memstream_receive_checkpoints_first : forall s t h,
   snd (MemStream.step s (MemStream.Recv t h)) = MemStream.RRejected.
 Proof. exact memstream_receive_checkpoints_first. Qed.
 Print Assumptions C08_memstream_receive_checkpoints_first.
+
+(* tie T: the table rows regenerated from the source on this run (tools/translate_fastpath.py) *)
+From AV Require FastPathGen FastPathGenEq.
+
+Theorem C08_generated_shapes_equal_table : forall r,
+  In r FastPathGenEq.exact_rows -> FastPathGen.row_shape_gen r = Some (row_shape r).
+Proof. exact FastPathGenEq.generated_shapes_equal_table. Qed.
+Print Assumptions C08_generated_shapes_equal_table.
+
+Theorem C08_generated_entry_segments_are_prefixes : forall r, In r FastPathGenEq.prefix_rows ->
+  exists g rest, FastPathGen.row_shape_gen r = Some g /\ row_shape r = g ++ rest /\ starts_with_check g = true.
+Proof. exact FastPathGenEq.generated_entry_segments_are_prefixes. Qed.
+Print Assumptions C08_generated_entry_segments_are_prefixes.
+
+Theorem C08_every_translated_row_is_covered : forall r,
+  In r FastPathGen.translated_rows -> In r FastPathGenEq.exact_rows \/ In r FastPathGenEq.prefix_rows.
+Proof. exact FastPathGenEq.every_translated_row_is_covered. Qed.
+Print Assumptions C08_every_translated_row_is_covered.
